@@ -77,24 +77,23 @@ Print Assumptions C20_refusal_touches_nothing.
 
    [mig_pre es c name]: signac.rc parses to c with project name [name]; no .signac entry; the
    project document is absent or a JSON object; the v1 cache / history entries are files or absent;
-   the workspace is the default one, or a custom single-component name w whose directory EXISTS
-   and no entry 'workspace' is in the way.
+   the workspace is the default one, or a custom single-component name w with no entry 'workspace'
+   in the way, whose directory exists OR was never created (a project that never initialised a job;
+   then w must not be one of the names the migration itself creates).
    [mig_post es c name fin]: in the resulting entries fin the whole workspace node of es (every job
-   directory with state point, document and files, byte for byte) is the entry 'workspace'; signac.rc,
-   the v1 cache and history entries are gone; .signac holds config = {schema_version 2} and the
-   cache / history files with their old bytes; the project document holds signac_project_name iff
-   the name is not the default "None" and keeps all its other keys; every other entry is unchanged.
-
-   FULL STATEMENT (false of the faithful model, hence NOT a theorem):
-     forall es c name, legacy_pre es c name -> fst (migrate0 es) = Ok tt
-   where legacy_pre is mig_pre without "the configured workspace directory exists" (defect F17,
-   signac/migration/v1_to_v2.py:55-66).  Proved instead: the partial theorem under mig_pre, the
-   refutation with a concrete witness, and the exact behaviour on the whole defect class. *)
-Theorem C20_migrate_preserves_jobs_partial : forall es c name, mig_pre es c name ->
+   directory with state point, document and files, byte for byte) is the entry 'workspace' (absent
+   iff it was absent); signac.rc, the v1 cache and history entries are gone; .signac holds config =
+   {schema_version 2} and the cache / history files with their old bytes; the project document holds
+   signac_project_name iff the name is not the default "None" and keeps all its other keys; every
+   other entry is unchanged.
+   Since the repair of F17 (fix: 8637b58) the theorem no longer needs "the configured workspace
+   directory exists".  Remaining restriction of the THEOREM (not of the correspondence): custom
+   names are single components (nested names like data/ws are covered by the correspondence). *)
+Theorem C20_migrate_preserves_jobs : forall es c name, mig_pre es c name ->
   (cv c = None \/ cv c = Some 0%Z \/ cv c = Some 1%Z) ->
   exists fin, migrate0 es = (Ok tt, world fin) /\ mig_post es c name fin.
 Proof. exact migrate_preserves_jobs. Qed.
-Print Assumptions C20_migrate_preserves_jobs_partial.
+Print Assumptions C20_migrate_preserves_jobs.
 
 (* the path-level model of _migrate_v1_to_v2 computes exactly the entries-level function *)
 Theorem C20_migration_step_refines : forall es c name, mig_pre es c name ->
@@ -110,6 +109,14 @@ Theorem C20_migrated_project_opens : forall fin cd ws,
   get_project (world fin) CWD0 P0 true = (Ok P0, world fin).
 Proof. exact opens_after. Qed.
 Print Assumptions C20_migrated_project_opens.
+
+Theorem C20_migrated_project_opens_creating_workspace : forall fin cd,
+  alookup s_dotsignac fin = Some (Dir cd) ->
+  alookup s_config cd = Some (File (FCfg {| cv := Some 2%Z; cproj := None; cws := None |})) ->
+  alookup s_workspace fin = None ->
+  get_project (world fin) CWD0 P0 true = (Ok P0, world (aset s_workspace (Dir []) fin)).
+Proof. exact opens_after_creating. Qed.
+Print Assumptions C20_migrated_project_opens_creating_workspace.
 
 (* migrating an up-to-date project is a no-op *)
 Theorem C20_migrate_noop_on_v2 : forall es cd c, alookup s_dotsignac es = Some (Dir cd) ->
@@ -131,25 +138,24 @@ Theorem C20_migrate_newer_refused_legacy : forall es c name v, alookup s_rc es =
 Proof. exact migrate_newer_refused_v1. Qed.
 Print Assumptions C20_migrate_newer_refused_legacy.
 
-(* collision (custom workspace_dir while an entry 'workspace' exists) AND the F17 class (custom
-   workspace_dir that does not exist): RuntimeError; every entry of the project directory is left
-   as it was, except that a version 0 / absent has been bumped to 1 in signac.rc by the completed
-   0->1 step (never to 2: the version is written after each step, not before) *)
-Theorem C20_migrate_collision_or_missing_refused : forall es c name w, fail_pre es c name w ->
+(* collision (custom workspace_dir while an entry 'workspace' exists): RuntimeError; every entry of
+   the project directory is left as it was, except that a version 0 / absent has been bumped to 1
+   in signac.rc by the completed 0->1 step (never to 2: the version is written after each step) *)
+Theorem C20_migrate_collision_refused : forall es c name w, fail_pre es c name w ->
   (cv c = None \/ cv c = Some 0%Z \/ cv c = Some 1%Z) ->
   migrate0 es = (Err ERuntimeError,
                  world (match cv c with Some 1%Z => es | _ => aset s_rc (File (FCfg (with_v1 c))) es end)).
 Proof. exact migrate_refused. Qed.
-Print Assumptions C20_migrate_collision_or_missing_refused.
+Print Assumptions C20_migrate_collision_refused.
 
-(* F17 refuted with a concrete witness: signac.rc = {schema_version 1, project x, workspace_dir ws},
-   no directory ws.  The migration aborts and the project can still not be opened. *)
-Theorem C20_migrate_missing_custom_workspace_refuted : exists es c name,
-  legacy_pre es c name /\
-  migrate0 es = (Err ERuntimeError, world es) /\
-  fst (get_project (world es) CWD0 P0 true) = Err EIncompatibleSchemaVersion.
-Proof. exact f17_refuted. Qed.
-Print Assumptions C20_migrate_missing_custom_workspace_refuted.
+(* the former F17 witness (signac.rc = {1, "x", workspace_dir ws}, no directory ws) satisfies the
+   hypotheses, migrates, and the result opens *)
+Theorem C20_former_f17_witness_migrates :
+  mig_pre f17_es f17_cfg [120%N] /\
+  migrate0 f17_es = (Ok tt, world (final_entries f17_cfg [120%N] f17_es)) /\
+  fst (get_project (world (final_entries f17_cfg [120%N] f17_es)) CWD0 P0 true) = Ok P0.
+Proof. exact f17_repaired. Qed.
+Print Assumptions C20_former_f17_witness_migrates.
 
 (* ---- model_holds: licence for "implementation agrees with the model on this case => ..."
    gate: whenever the model refuses Project() / get_project() and the implementation agrees, the
